@@ -117,6 +117,10 @@ func (r *Reader) readBlock() error {
 func (r *Reader) Read(p []byte) (n int, err error) {
 	if r.pos >= int64(len(r.data)) {
 		if err := r.readBlock(); err != nil {
+			// Block is not verified, so nothing should be returned by
+			// subsequent reads.
+			r.data = r.data[:0]
+			r.pos = 0
 			return 0, errors.Wrap(err, "read next block")
 		}
 	}
